@@ -769,6 +769,11 @@ class StretchyTreeMatcher:
             # the children noting the special case when the nodes of the array are actually parameters of the node
             # (e.g. a load function) instead of a child node
             if not ignore_field:
+                # A list of plain values (e.g. the names of a ``global``
+                # statement) is content, not children: all of it must be there
+                if (ins_value and all(is_primitive(value) for value in ins_value)
+                        and len(ins_value) != len(std_value)):
+                    is_match = False
                 for inssub_value, stdsub_value in zip(ins_value, std_value):
                     if not is_match:
                         break
